@@ -85,3 +85,14 @@ Proof. unfold ids_ok, fresh_ok, ex_fr. cbn. repeat split; discriminate. Qed.
 Example C04_init_example :
   forallb (init_ok []) (seq 0 12) = true /\ forallb (init_ok [105%N;110%N;115%N;116%N]) (seq 0 12) = true.
 Proof. vm_compute. split; reflexivity. Qed.
+
+(* ---------- tie to the source text ----------
+   The transaction machine above assumes what SQLite gives with a write-ahead log and synchronous >= NORMAL: a
+   committed transaction is published atomically.  The pragmas NewSqliteDb hands to sql.Open, printed from
+   store/sqlite.go on every run (Anchors/Generated.v), say so. *)
+From Verif Require Import Anchors.Generated Anchors.TieStore.
+Theorem C04_journal_from_source :
+  contains journal_wal go_store_NewSqliteDb_pragmas = true /\
+  (contains sync_normal go_store_NewSqliteDb_pragmas || contains sync_full go_store_NewSqliteDb_pragmas)%bool = true.
+Proof. exact tie_journal. Qed.
+Print Assumptions C04_journal_from_source.
